@@ -23,6 +23,7 @@ Sub-spaces (each crossed fully inside its bound):
 import itertools, math
 from fractions import Fraction
 import numpy as np
+from mc.explore import recycle
 
 ID = "C10"
 # computational entry points whose results are watched by the engine's retained-result oracle (mc/explore.py)
@@ -237,8 +238,8 @@ def check_rank_case(ctx, sim, model=None):
 
 def call_dscore(obs, sim):
     from hydrodiy.stat import metrics
-    return float(metrics.dscore(np.array(obs, dtype=np.float64),
-                                np.array(sim, dtype=np.float64).reshape(len(sim), -1)))
+    return float(metrics.dscore(recycle("obs", np.array(obs, dtype=np.float64)),
+                                recycle("sim", np.array(sim, dtype=np.float64).reshape(len(sim), -1))))
 
 
 def order_class(obs, sim):
@@ -406,8 +407,9 @@ class Script(object):
 def call_pit(obs, ens, random, cst, censor, script=None):
     """script: None or (dobs list, dens list of lists) -> (pits, is_sudo, protocol_ok)"""
     from hydrodiy.stat import metrics
-    o = np.array(obs, dtype=np.float64)
-    e = np.array(ens, dtype=np.float64).reshape(len(ens), -1)
+    # the same two array objects are refilled for every call of the same shape (see mc.explore.recycle)
+    o = recycle("obs", np.array(obs, dtype=np.float64))
+    e = recycle("ens", np.array(ens, dtype=np.float64).reshape(len(ens), -1))
     if not random or script is None:
         p, s = metrics.pit(o, e, random=random, cst=cst, censor=censor)
         return p, s, True
@@ -590,7 +592,7 @@ def check_unif_case(ctx, data):
     nt = len(set(data)) > 1
     inopen = srt[0] > 0.0 and srt[-1] < 1.0
     wref, aref = stat_refs(srt)
-    arr = np.array(data, dtype=np.float64)
+    arr = recycle("unif", np.array(data, dtype=np.float64))
     keep = arr.copy()
     # ---- Cramer-von Mises
     try:
@@ -830,7 +832,7 @@ def check_alpha_case(ctx, obs, ens, typ, script):
     sc = Script([script[0], script[1]], orig)
     np.random.uniform = sc
     try:
-        st, pv, sudo = metrics.alpha(np.array(obs, dtype=np.float64), np.array(ens, dtype=np.float64).reshape(n, -1), type=typ)
+        st, pv, sudo = metrics.alpha(recycle("obs", np.array(obs, dtype=np.float64)), recycle("ens", np.array(ens, dtype=np.float64).reshape(n, -1)), type=typ)
     except Exception as e:
         np.random.uniform = orig
         ctx.case(has_tie)
